@@ -15,6 +15,20 @@ CHECKS = {
              "assumed within 1e-12 relative (checked on every sampled case, not proved).",
         technique="Lean 4 proof over translator-generated tables + differential correspondence",
         design="§6 C06"),
+    "C18": dict(
+        text="Lean theorems about the executable model of parse_units / parse_unitvalue / Units.__str__ / UnitValue.__str__ / "
+             "Units.__eq__ (tables and text-pipeline constants regenerated from units.py on every run): print->parse round trip "
+             "for all 1100 valid systems x all integer exponent vectors (own int printer/reader round trip), quantity round trip "
+             "under the float(str(x))=x contract of the trusted primitives, grammar semantics (dimension = sum, SI scale = product "
+             "of the symbols' meanings; invariant under factor order and a/b <-> a.b-1), u-spelling, one rejection theorem per "
+             "class of the statement. Tie: translator G1/G2 + UnitsText + correspondence (all 1-factor strings, all symbol pairs x "
+             "both separators, random 3-factor strings, round trips, malformed families from the documentation's wrong examples) "
+             "+ grammar-denotation / must-raise oracle on the real code.",
+        note="Lean kernel + {propext, Classical.choice, Quot.sound}; translator; correspondence harness; float()/str(float) of "
+             "CPython trusted (bitwise round trip checked on every sampled double); non-ASCII digits and blanks beyond "
+             "str.isspace are outside the model.",
+        technique="Lean 4 proof over translator-generated tables + differential correspondence",
+        design="§6 C18"),
 }
 
 ALL = ["C%02d" % i for i in range(1, 21)]
